@@ -319,47 +319,10 @@ where
     out
 }
 
-fn run_fmt<F>(itp: i128, nch: usize, own: i128, tail: i128, samples: &[i128], ctor: &[&str], ops: &[Vec<&str>]) -> Vec<String>
-where
-    F: Enc,
-    F::Sample: Duplex<f64>,
-{
-    let frames: Vec<F> = samples.chunks(nch).map(|c| F::dec(c)).collect();
-    let calls = Rc::new(Cell::new(0));
-    let pulls = Rc::new(Cell::new(0));
-    let it = CountIter { frames: frames.into_iter(), calls: calls.clone() };
-    let mut src = Counted { inner: signal::from_iter(it), pulls: pulls.clone() };
-    let mut out = if itp == 0 {
-        let interp = Floor::new(src.next());
-        match own {
-            0 => return drive(src, interp, prime_floor, &pulls, &calls, own, ctor, ops),
-            1 => drive(src.by_ref(), interp, prime_floor, &pulls, &calls, own, ctor, ops),
-            _ => drive(&mut src, interp, prime_floor, &pulls, &calls, own, ctor, ops),
-        }
-    } else {
-        let a = src.next();
-        let b = src.next();
-        let interp = Linear::new(a, b);
-        match own {
-            0 => return drive(src, interp, prime_linear, &pulls, &calls, own, ctor, ops),
-            1 => drive(src.by_ref(), interp, prime_linear, &pulls, &calls, own, ctor, ops),
-            _ => drive(&mut src, interp, prime_linear, &pulls, &calls, own, ctor, ops),
-        }
-    };
-    // the converter is gone: the borrowed source continues exactly where it was left
-    if out.len() == 1 && out[0].starts_with("8") {
-        return out;
-    }
-    for _ in 0..tail {
-        let exh = Signal::is_exhausted(&src) as i128;
-        let f = src.next();
-        let mut v = vec![exh, pulls.get(), calls.get()];
-        v.extend(f.enc());
-        out.push(line(5, &v));
-    }
-    out
-}
-
+// The per-format driver is expanded at a MONOMORPHIC call site (macro `go!` in main, `type F = <concrete type>`), not
+// written as a function generic in the frame type: the harness must keep compiling when a trait bound of a public
+// impl (say `impl Interpolator for Linear<F>`) changes in a way every concrete format still satisfies, so that such a
+// change is judged by its behaviour and not reported as a harness that no longer builds.
 fn main() {
     serve(|l| {
         let parts: Vec<&str> = l.split(';').collect();
@@ -374,7 +337,45 @@ fn main() {
             .collect();
         macro_rules! go {
             ($T:ty) => {
-                run_fmt::<$T>(itp, nch, own, tail, &samples, &ctor, &ops)
+                (|| -> Vec<String> {
+                    type F = $T;
+            
+                let frames: Vec<F> = samples.chunks(nch).map(|c| F::dec(c)).collect();
+                let calls = Rc::new(Cell::new(0));
+                let pulls = Rc::new(Cell::new(0));
+                let it = CountIter { frames: frames.into_iter(), calls: calls.clone() };
+                let mut src = Counted { inner: signal::from_iter(it), pulls: pulls.clone() };
+                let mut out = if itp == 0 {
+                    let interp = Floor::new(src.next());
+                    match own {
+                        0 => return drive(src, interp, prime_floor, &pulls, &calls, own, &ctor, &ops),
+                        1 => drive(src.by_ref(), interp, prime_floor, &pulls, &calls, own, &ctor, &ops),
+                        _ => drive(&mut src, interp, prime_floor, &pulls, &calls, own, &ctor, &ops),
+                    }
+                } else {
+                    let a = src.next();
+                    let b = src.next();
+                    let interp = Linear::new(a, b);
+                    match own {
+                        0 => return drive(src, interp, prime_linear, &pulls, &calls, own, &ctor, &ops),
+                        1 => drive(src.by_ref(), interp, prime_linear, &pulls, &calls, own, &ctor, &ops),
+                        _ => drive(&mut src, interp, prime_linear, &pulls, &calls, own, &ctor, &ops),
+                    }
+                };
+                // the converter is gone: the borrowed source continues exactly where it was left
+                if out.len() == 1 && out[0].starts_with("8") {
+                    return out;
+                }
+                for _ in 0..tail {
+                    let exh = Signal::is_exhausted(&src) as i128;
+                    let f = src.next();
+                    let mut v = vec![exh, pulls.get(), calls.get()];
+                    v.extend(f.enc());
+                    out.push(line(5, &v));
+                }
+                out
+            
+                })()
             };
         }
         let out = match (fmt, nch) {
